@@ -14,7 +14,7 @@ BUILT = {
  "C07": dict(
    technique="TLA+ spec SimKernel.tla (resource section) + ResMC model-checked with TLC over all put/get/cancel histories within bounds; emitted histories replayed on the real Container/Store/PriorityStore/FilterStore; generated longer histories validated by TLC",
    text="TLC enumerates every history of 2 processes x 3 ops over put, get, cancel, sleep and yield on a container and on stores of capacity 1-2 with unique items and filters and checks LevelBounds, LevelConservation, StoreBound, ItemsOnce, StoreOrder, QueueFifo and NoStranded (whenever the clock is about to advance, also after cancellations); every emitted history is executed on the real classes step by step and the log (items and grant instants received, level, items and queue lengths after every kernel step) compared; generated longer histories are validated by TLC.",
-   note=KERN, design="6/C07"),
+   note=KERN + "; container amounts are integers scaled by exact powers of two (2^-40 .. 2^30), capacities a or a + 1/2; floating-point rounding of non-dyadic amounts is not decided", design="6/C07"),
  "C08": dict(
    technique="TLA+ specs Conserve.tla and GenSink.tla model-checked with TLC (safety and liveness) + TLC trace validation of tap traces recorded on every edge of random pipelines built from every real element class, and of the real DistPacketGenerator/PacketSink book-keeping",
    text="TLC checks Accounted, DropsOnlyByRule, PerFlowFifo, NoInvention, NoDuplication and Drains on chain, fan-in, fan-out and splitter topologies with <=4 packets, and the generator/sink clauses on short draw sequences; the driver builds seeded random DAGs (chains of 1-4, fan-in, fan-out, rejoining splitter branches, same-instant bursts) from all 17 element classes with a recording tap on every edge, runs lattice workloads to exhaustion and the global tap trace (edge crossings with identity and field snapshot, counters read back, loss draws, counters and store contents at quiescence, exceptions) must be a behaviour of the specification.",
@@ -31,19 +31,19 @@ BUILT = {
    text="The implementation-shaped kernel specification (agenda, event life cycle, callback lists, processes, interrupts) is explored exhaustively with nondeterministic programs (every program of <=3 processes x 2 ops / 2 x 3 over timeouts 0/1/2, shared events, joins, spawns, interrupts, negative delay) with time-order, agenda and life-cycle invariants; each emitted program is executed on the real onl.sim kernel and its complete observable log (resumptions with instants and values, probe callbacks of every event, refused calls, run() outcome) must equal the specification's; larger on-the-fly generated programs (also with float delays, handled by rank abstraction of the exact float sums t0 + d, and tiny negative delays) are validated in the other direction by TLC (KernelTrace), final event states included; the agenda of every Environment created by the repository's own 119 tests and nine demo programs is recorded through a pytest plug-in and validated against AgendaTrace.tla.",
    note=KERN, design="6/C01, Part II 11"),
  "C02": dict(
-   technique="TLA+ spec SimKernel.tla model-checked with TLC (alphabet: succeed/fail, several waiters, catching/non-catching yields, child return/raise, double triggers); emitted programs replayed on the real kernel; generated programs validated by TLC",
+   technique="TLA+ spec SimKernel.tla model-checked with TLC (alphabet: succeed/fail/Event.trigger, several waiters, catching/non-catching yields, child return/raise, double triggers, failures whose constructor does not take its own args, conditions with failing operands); emitted programs replayed on the real kernel; generated programs validated by TLC",
    text="Same machinery as C01 with the alphabet of C02: SingleWait, LifeCycle, ProbeOnce and DeliveredIsEventOutcome are checked on every reachable state; the logs compared include the value or exception (type and args) received at every yield, the outcome of every process event and the exception escaping run().",
    note=KERN, design="6/C02"),
  "C03": dict(
-   technique="TLA+ spec SimKernel.tla with top-level plans (run / run(until=number) / run(until=event) / step) model-checked with TLC; emitted programs-with-plans replayed; generated ones validated by TLC, re-executed under three hash seeds and against the uninterrupted run",
+   technique="TLA+ spec SimKernel.tla with top-level plans (run / run(until=number) / run(until=event) / step) model-checked with TLC; emitted programs-with-plans replayed; generated ones validated by TLC, re-executed under three hash seeds and against the uninterrupted run; action property RunReturnsAtItsStop; network scenarios (also off the exact lattice: string class ids, decimal weights) repeated under up to six hash seeds",
    text="TLC enumerates every plan of <=3 stop commands over every program within the bounds (stop instants coinciding with due events, until <= now, until-events already processed); logs incl. every return value / exception of run() and peek() after every step() must equal the specification's. Generated programs with longer plans (also with float stop instants) are validated by TLC, re-run in separate interpreters under PYTHONHASHSEED 0/1/4242 (identical logs required) and compared with the same processes under uninterrupted run() calls (process-visible log must be a prefix); routing (hubs with string ids), scheduler and port scenarios (half of the RED ones on the real, program-seeded random generator) are executed twice in one interpreter and under the three hash seeds, traces must be identical. The thorough tier also checks liveness (every run()/step() returns) under weak fairness.",
    note=KERN + "; hash seeds are sampled, not quantified", design="6/C03"),
  "C04": dict(
-   technique="TLA+ spec SimKernel.tla model-checked with TLC (alphabet: interrupt, spawn, sleep, catching/non-catching yields, raise); emitted programs replayed on the real kernel; generated programs validated by TLC",
+   technique="TLA+ spec SimKernel.tla model-checked with TLC (alphabet: interrupt from processes, from the top level and from plain event callbacks, spawn, sleep, catching/non-catching yields, raise); emitted programs replayed on the real kernel; generated programs validated by TLC",
    text="Every program of <=3 processes x 2 ops / 2 x 3 in which processes interrupt each other (victims ignoring, re-waiting, waiting for something else, terminating, raising; dead and self targets) is executed on the real kernel; the log pins the instant and cause of every Interrupt, the resumption of victims and co-waiters and the RuntimeError at refused calls. SingleWait and FirstResumeIsInit are invariants of the model.",
    note=KERN, design="6/C04"),
  "C05": dict(
-   technique="TLA+ spec SimKernel.tla model-checked with TLC (alphabet: all_of/any_of over timeouts, events, processes, conditions); emitted programs replayed; generated condition trees validated by TLC, with the OrphanNested deviation recognising known finding F19b",
+   technique="TLA+ spec SimKernel.tla model-checked with TLC (alphabet: all_of/any_of over timeouts, events, processes, conditions, the same operand listed twice); emitted programs replayed; generated condition trees validated by TLC, with the OrphanNested deviation recognising known finding F19b",
    text="Every program of 2 processes x 4 ops building conditions (<=2-3 operands, nesting, empty lists, processed operands, failing operands) is executed on the real kernel and the resume instants, ConditionValue key order and exceptions compared with the specification (CondPendingMeansUnmet is an invariant of the model). Generated programs with deeper trees and conditions without probe callbacks are validated by TLC; traces explained only by the named deviation are reported as KNOWN-FINDING F19b.",
    note=KERN, design="6/C05"),
  "C19": dict(
@@ -74,7 +74,7 @@ BUILT = {
  "C13": dict(
    technique="TLA+ spec Sched.tla (policy SP) model-checked with TLC + TLC trace validation of the real SP scheduler",
    text="TLC checks StrictAtStart over a selection history on all workloads within the bounds (priority tables incl. equal priorities, 2-3 flows); emitted and random workloads keeping several priority levels backlogged are run on the real SP scheduler and every service start (pinned by departures, packet_in_service and the counters after each action) must be a selection the specification allows.",
-   note="integer lattice; equal-priority ties are left open as the property does",
+   note="integer lattice; equal-priority ties are left open as the property does; a choice made at an instant must follow every arrival scheduled for that instant beforehand, arrivals created inside the instant by zero-delay hops may come after it",
    design="6/C13"),
  "C14": dict(
    technique="TLA+ spec Sched.tla (policies WFQ, VC) model-checked with TLC + TLC trace validation of the real WFQ and VirtualClock binding finish_times/vtime/aux_vc",
@@ -88,9 +88,9 @@ BUILT = {
    design="6/C15"),
 
  "C16": dict(
-   technique="TLA+ specs TcpSink.tla and TcpLoop.tla model-checked with TLC (safety, liveness under weak fairness, NoSpuriousRetx) + TLC trace validation of the real TCPSink and of real sender-wire-sink loops with scripted drop patterns",
+   technique="TLA+ specs TcpSink.tla and TcpLoop.tla model-checked with TLC (safety, liveness under weak fairness, NoSpuriousRetx) + TLC trace validation of the real TCPSink and of real sender-path-sink loops (Wires, a synchronous path without delay, paths that reorder) with scripted drop patterns",
    text="TLC checks AckIsPrefix/AckMonotone over all arrival sequences of <=5 segments (reordered, duplicated, gaps, first missing) and, for the untimed loop model with <=2 data and <=2 ACK drops, NoCrash, MarkIsTrue, TimersAreOutstanding, <>AllDelivered under weak fairness and NoSpuriousRetx on loss-free timely paths; the real TCPSink is driven with emitted and random arrival sequences, and real TCPPacketGenerator (Reno and CUBIC) -> Wire -> TCPSink -> Wire loops are run under every pattern of <=2+2 drops over the first 8 transmissions, the recorded event order (transmissions, sink arrivals/ACKs, ACK arrivals with last_ack/next_seq, end state) being validated against the loop specification.",
-   note="the loop model is untimed; window size, RTO values and which duplicate triggers fast retransmit are left to C17",
+   note="the loop model is untimed (FIFO paths, or cfg.fifo = 0: any packet in flight may arrive next); window size, RTO values and which duplicate triggers fast retransmit are left to C17",
    design="6/C16"),
 
  "C17": dict(
